@@ -77,7 +77,11 @@ impl MDBShardFile {
 
         let full_file_name = target_directory.join(shard_file_name(&shard_hash));
 
+        #[cfg(xet_verif)]
+        utils::verif::crash_point("shard_before_rename", &full_file_name.to_string_lossy());
         std::fs::rename(&temp_file_name, &full_file_name)?;
+        #[cfg(xet_verif)]
+        utils::verif::crash_point("shard_after_rename", &full_file_name.to_string_lossy());
 
         Self::load_from_hash_and_path(shard_hash, &full_file_name)
     }
